@@ -215,6 +215,32 @@ bool Hist::opSelfParam() {
     return true;
 }
 
+// Copy a parameter out of the object, rename it (and its description) with the SETTERS, add it back: a new parameter under the new name.
+bool Hist::opRenameCopy() {
+    std::vector<std::pair<size_t, size_t> > cand;
+    static const char* managed[] = {"USED", "FRAMES", "LABELS", "DESCRIPTIONS", "UNITS", "SCALE", "OFFSET", "RATE", "DATA_START", "GEN_SCALE", "FORMAT", "BITS"};
+    for (size_t g = 0; g < prev.groups.size(); ++g) { if (prev.groups[g].name.empty()) continue; for (size_t q = 0; q < prev.groups[g].params.size(); ++q) { bool m = false; for (size_t k = 0; k < sizeof managed / sizeof managed[0]; ++k) if (upperS(prev.groups[g].params[q].name) == managed[k]) m = true; if (!m && !prev.groups[g].params[q].name.empty()) cand.push_back(std::make_pair(g, q)); } }
+    if (cand.empty()) return false;
+    std::pair<size_t, size_t> c = cand[rng.below(cand.size())];
+    const SGroup& G = prev.groups[c.first]; const SParam& sp = G.params[c.second];
+    Param copy(obj->parameters().group(c.first).parameter(c.second));
+    std::vector<std::string> taken; for (size_t q = 0; q < G.params.size(); ++q) taken.push_back(G.params[q].name);
+    std::string nn;
+    if (rng.chance(60)) { // same length as the old name (only some characters differ)
+        for (int tries = 0; tries < 50 && nn.empty(); ++tries) { std::string v = sp.name; for (size_t i = 0; i < v.size(); ++i) if (rng.chance(60)) v[i] = (char)("ABCDEFGHJKMNPQRSTUVWXYZ23456789"[rng.below(30)]); bool clash = false; for (size_t q = 0; q < taken.size(); ++q) if (upperS(taken[q]) == upperS(v)) clash = true; if (!clash) nn = v; }
+    }
+    if (nn.empty()) nn = freshName("Ren", taken);
+    copy.name(nn); std::string nd = rng.chance(50) ? std::string("renamed copy of ") + sp.name.substr(0, 40) : sp.desc; copy.description(nd);
+    if (rng.chance(30)) { if (copy.isLocked()) copy.unlock(); else copy.lock(); }
+    SParam given = takeParam(copy);
+    log.pre("parameter", "renamed_copy"); Outcome oc; VF_TRY(oc, obj->parameter(G.name, copy));
+    log.ev("add_renamed_copy", "group=\"" + esc(G.name) + "\" from=\"" + esc(sp.name) + "\" as=\"" + esc(nn) + "\"", oc); bump("op:add_renamed_copy");
+    if (!wild) { if (oc.threw) log.viol("C09", "param/valid_refused/add_renamed_copy/" + oc.cls, oc.what);
+        else { Snap cur = take(*obj); int gi = cur.findGroup(G.name); if (gi < 0 || cur.groups[gi].params.size() != G.params.size() + 1 || cur.groups[gi].params.back() != given) { std::ostringstream dd; dd << "a renamed copy of " << esc(sp.name) << " was not appended as " << esc(nn) << " with the given content: group index " << gi << " params " << (gi >= 0 ? cur.groups[gi].params.size() : 0) << " (had " << G.params.size() << ")"; if (gi >= 0 && !cur.groups[gi].params.empty()) { const SParam& b = cur.groups[gi].params.back(); dd << " last=" << esc(b.name) << " type " << b.type << "/" << given.type << " dims " << dimsToStr(b.dims) << "/" << dimsToStr(given.dims) << " desc " << b.desc.size() << "/" << given.desc.size() << " lock " << b.lock << "/" << given.lock << " n " << b.iv.size() << "," << b.fv.size() << "," << b.sv.size() << "/" << given.iv.size() << "," << given.fv.size() << "," << given.sv.size(); } log.viol("C09", "param/renamed_copy_not_appended", dd.str()); } } }
+    afterMutator("add_renamed_copy", oc);
+    return true;
+}
+
 bool Hist::opLock() {
     std::vector<std::string> gnames; for (size_t g = 0; g < prev.groups.size(); ++g) if (!prev.groups[g].name.empty()) gnames.push_back(prev.groups[g].name);
     bool absent = rng.chance(15) || gnames.empty();
